@@ -85,10 +85,15 @@ class NewtonRaphsonGeometry(StandardGeometry, ABC):
         for i in range(self.max_iter):
             z_surface = self.sag(intersections[:, 0], intersections[:, 1])
             dz = intersections[:, 2] - z_surface
-            distance = dz / ray_directions[:, 2]
-            intersections -= distance[:, None] * ray_directions
-            if np.max(np.abs(dz)) < self.tol:
+            # every ray is iterated until ITS OWN residual is below the
+            # tolerance and then left alone, so that its result does not
+            # depend on which other rays share the batch
+            with np.errstate(invalid='ignore'):
+                active = ~(np.abs(dz) < self.tol)
+            if not active.any():
                 break
+            distance = np.where(active, dz / ray_directions[:, 2], 0.0)
+            intersections -= distance[:, None] * ray_directions
         position = np.column_stack((rays.x, rays.y, rays.z))
         t = np.linalg.norm(intersections - position, axis=1)
 
